@@ -46,7 +46,8 @@ def e_insert(rng, text, lang, protect_top=0):
             if kind >= 0.4 and lang != "py" and rng.random() < 0.3:
                 out.append("%s/* note %d */" % (ind, rng.randint(100, 999)))  # a one-line block comment is a comment line too
             else:
-                out.append("" if kind < 0.25 else ind if kind < 0.4 else "%s%s note %d" % (ind, CM[lang], rng.randint(100, 999)))
+                words = rng.choice(["note", "note", "r\u00e9sum\u00e9 des donn\u00e9es", "\u6570\u636e \u2192 \u00fcber", "caf\u00e9 \U0001f600"])  # comment text is free text, not only ASCII
+                out.append("" if kind < 0.25 else ind if kind < 0.4 else "%s%s %s %d" % (ind, CM[lang], words, rng.randint(100, 999)))
             shift_at.append(i)
             k += 1
         out.append(ln)
